@@ -621,3 +621,14 @@ Proof.
   constructor; [|exact Hnd]. cbn [fresh_label] in Ef. rewrite Hmt, Z.eqb_refl in Ef. cbn [andb] in Ef.
   apply negb_true_iff in Ef. intro Hin. apply in_existsb_seen in Hin. congruence.
 Qed.
+
+(* in re-use schedules (hence in fresh-id schedules) a pending tombstone collection only ever
+   meets a tombstone or nothing: there the collection that deletes whatever has the id
+   (relayItems.Delete, the code before the fix) and the one that deletes tombstones only
+   (relayItems.deleteTomb) do the same *)
+Theorem reuse_gc_tombs : forall cf ls st t it, run_reuse cf init ls = Some st ->
+  In t (gcs st) -> lookup key_eqb t (items st) = Some it -> it_tomb it = true.
+Proof.
+  intros cf ls st t it H Hin Hl. destruct (reuse_simulated cf ls st H) as (ls0&st0&R&_&Hi&_&Hg&_).
+  rewrite Hi in Hl. rewrite Hg in Hin. exact (inv_gcs _ (reach_inv cf ls0 st0 R) t it Hin Hl).
+Qed.
